@@ -481,11 +481,17 @@ func (cons *VesaFbConsole) replace16(src, dst color.RGBA) {
 	cons.palette[0] = dst
 	dstComp := cons.packColor16(0)
 	cons.palette[0] = tmp
-	for fbOffset := cons.fbOffset(0, 0); fbOffset < uint32(len(cons.fb)); fbOffset += cons.bytesPerPixel {
-		if cons.fb[fbOffset] == srcComp[0] &&
-			cons.fb[fbOffset+1] == srcComp[1] {
-			cons.fb[fbOffset] = dstComp[0]
-			cons.fb[fbOffset+1] = dstComp[1]
+	// Visit the pixels row by row; the bytes between the end of a row and
+	// the next multiple of the pitch are padding and must be skipped.
+	rowSize := cons.width * cons.bytesPerPixel
+	for y := cons.offsetY; y < cons.height; y++ {
+		fbRowOffset := y * cons.pitch
+		for fbOffset := fbRowOffset; fbOffset < fbRowOffset+rowSize; fbOffset += cons.bytesPerPixel {
+			if cons.fb[fbOffset] == srcComp[0] &&
+				cons.fb[fbOffset+1] == srcComp[1] {
+				cons.fb[fbOffset] = dstComp[0]
+				cons.fb[fbOffset+1] = dstComp[1]
+			}
 		}
 	}
 }
@@ -499,13 +505,19 @@ func (cons *VesaFbConsole) replace24(src, dst color.RGBA) {
 	cons.palette[0] = dst
 	dstComp := cons.packColor24(0)
 	cons.palette[0] = tmp
-	for fbOffset := cons.fbOffset(0, 0); fbOffset < uint32(len(cons.fb)); fbOffset += cons.bytesPerPixel {
-		if cons.fb[fbOffset] == srcComp[0] &&
-			cons.fb[fbOffset+1] == srcComp[1] &&
-			cons.fb[fbOffset+2] == srcComp[2] {
-			cons.fb[fbOffset] = dstComp[0]
-			cons.fb[fbOffset+1] = dstComp[1]
-			cons.fb[fbOffset+2] = dstComp[2]
+	// Visit the pixels row by row; the bytes between the end of a row and
+	// the next multiple of the pitch are padding and must be skipped.
+	rowSize := cons.width * cons.bytesPerPixel
+	for y := cons.offsetY; y < cons.height; y++ {
+		fbRowOffset := y * cons.pitch
+		for fbOffset := fbRowOffset; fbOffset < fbRowOffset+rowSize; fbOffset += cons.bytesPerPixel {
+			if cons.fb[fbOffset] == srcComp[0] &&
+				cons.fb[fbOffset+1] == srcComp[1] &&
+				cons.fb[fbOffset+2] == srcComp[2] {
+				cons.fb[fbOffset] = dstComp[0]
+				cons.fb[fbOffset+1] = dstComp[1]
+				cons.fb[fbOffset+2] = dstComp[2]
+			}
 		}
 	}
 }
